@@ -42,9 +42,9 @@ Theorem C07_results_have_no_terminal_gap : forall r,
   consistent r -> o_rows r = [] \/ no_terminal_gap (to_scaffold_rows r).
 Proof. exact to_scaffold_rows_ok. Qed.
 Print Assumptions C07_results_have_no_terminal_gap.
-Theorem C07_leftovers_have_no_terminal_gap : forall found g rows,
-  missing_rows found g rows None 0 None = []
-  \/ no_terminal_gap (missing_rows found g rows None 0 None).
+Theorem C07_leftovers_have_no_terminal_gap : forall c found g rows,
+  missing_rows c found g rows [] 0 None = []
+  \/ no_terminal_gap (missing_rows c found g rows [] 0 None).
 Proof. exact missing_rows_no_terminal_gap. Qed.
 Print Assumptions C07_leftovers_have_no_terminal_gap.
 
@@ -59,14 +59,14 @@ Theorem C07_adjacent_only_within_piece : forall g pieces k b x y,
   exists p, In p pieces /\ adjacent_frags (sc_rows (fst p)) x y.
 Proof. exact fused_adjacent_only_within_piece. Qed.
 Print Assumptions C07_adjacent_only_within_piece.
-Theorem C07_leftover_adjacency_is_input_adjacency : forall found g rows a b,
-  adjacent_frags (missing_rows found g rows None 0 None) a b -> adjacent_frags rows a b.
+Theorem C07_leftover_adjacency_is_input_adjacency : forall c found g rows a b,
+  adjacent_frags (missing_rows c found g rows [] 0 None) a b -> adjacent_frags rows a b.
 Proof. exact missing_rows_adjacent. Qed.
 Print Assumptions C07_leftover_adjacency_is_input_adjacency.
 
 (* the pinned commit appended left-over pieces without the gap (repaired by a fix: commit) *)
 Theorem C07_legacy_refuted : exists g p1 p2 k b x y,
-  let c := mkCfg true false true true in
+  let c := mkCfg true false true true true in
   aget fuse_key_eqb (fold_left (fuse_step c g) [p1; p2] []) k = Some b
   /\ adjacent_frags (sc_rows b) x y
   /\ ~ adjacent_frags (sc_rows (fst p1)) x y /\ ~ adjacent_frags (sc_rows (fst p2)) x y.
